@@ -439,6 +439,43 @@ def build(run):
         return bounded_ok(n, f"all same-slot pairs of {len(items)} base forms x 5 sum shapes", sample="FormSum == weighted sum (zero elimination, flattening, merging of Forms)")
     run.add("formsum/weighted-sum", sums, kind="bounded")
 
+    # ---- scalar multiples, in particular by the unit weight in its various spellings: w*a denotes w times a, and the operand is left as it was
+    def scalings():
+        M = Model()
+        P = pool(M)
+        n = 0
+        items = [(nm, x) for nm, x in P.items() if isinstance(x, BaseForm)]
+        weights = [("1", 1, 1), ("1.0", 1.0, 1), ("IntValue(1)", ufl.as_ufl(1), 1), ("FloatValue(1.0)", ufl.as_ufl(1.0), 1), ("2", 2, 2), ("-1", -1, -1), ("0.5", 0.5, Fraction(1, 2))]
+        for an, a in items:
+            try:
+                Ta = M.den(a)
+            except N.Unsupported:
+                continue
+            if Ta is None:
+                continue
+            for wn, w_, wv in weights:
+                for how, op in (("w*a", lambda: w_ * a), ("FormSum((a, w))", lambda: FormSum((a, w_)))):
+                    before = (repr(a), [repr(x_) for x_ in getattr(a, "weights", lambda: [])()], hash(a))
+                    try:
+                        with warnings.catch_warnings():
+                            warnings.simplefilter("ignore")
+                            got = op()
+                    except (TypeError, ValueError, AttributeError, NotImplementedError):
+                        continue
+                    if got is NotImplemented:
+                        continue
+                    after = (repr(a), [repr(x_) for x_ in getattr(a, "weights", lambda: [])()], hash(a))
+                    n += 1
+                    if after != before:
+                        return violated(f"{how} with w = {wn} and a = {an} changed its operand: weights / repr before {before[1] or before[0][:80]}, after {after[1] or after[0][:80]}",
+                                        replay={"operand": an, "weight": wn, "how": how, "before": before[0][:600], "after": after[0][:600]}, reproduced=True, backend="exec")
+                    r = compare(M, f"{how}, w = {wn}, a = {an}", got, M.sum_spec([(Ta, wv)]), None)
+                    if not isinstance(r, int):
+                        return r
+                    n += r
+        return bounded_ok(n, f"{len(items)} base forms x {len(weights)} weights x 2 spellings", sample="w*a == weighted operand; operand unchanged (repr, weights, hash)")
+    run.add("formsum/scalar-multiples-and-unit-weights", scalings, kind="bounded")
+
     # ------------------------------------------------------------------ associativity / distribution of depth-2 compositions
     def depth2():
         M = Model()
